@@ -69,6 +69,9 @@ impl Bytes {
     pub fn from(s: String) -> (r: Bytes) ensures r@ == string_bytes(s) { unimplemented!() }
     #[verifier::external_body]
     pub fn new() -> (r: Bytes) ensures r@ == Seq::<u8>::empty() { unimplemented!() }
+    // Bytes::copy_from_slice(data): a fresh buffer with the same bytes
+    #[verifier::external_body]
+    pub fn copy_from_slice(data: &[u8]) -> (r: Bytes) ensures r@ == data@ { unimplemented!() }
     #[verifier::external_body]
     pub fn len(&self) -> (r: usize) ensures r == self@.len(), r <= BYTES_MAX() { unimplemented!() }
     #[verifier::external_body]
